@@ -58,7 +58,7 @@ def gen_case(rng):
             if deviation == "chans":
                 ch = rng.choice([chans[:-1] or [99], chans + [99], [98] + chans[1:]])
             elif deviation == "sr":
-                sr_i = SR * 2
+                sr_i = SR * rng.choice([2, 2, 1 + 3e-6, 1 + 2e-10])          # rates a few ppm / a fraction of a ppb apart are different rates
             elif deviation == "order":
                 ch = list(reversed(chans))
         rng.random() < 0.5 and ch.reverse()
